@@ -387,13 +387,14 @@ Plan gen_conc(uint64_t seed, const string &prop) {
   if (prop == "C09") { w[O_PUT] += 8; w[O_FLUSH] += 1; w[O_COMPACT_RANGE] += 1; w[O_BACKUP] += 0.5; }
   double tot = 0; for (double x : w) tot += x;
   bool bigvals = !small && r.chance(0.5);
+  bool hugevals = !small && !g_light && r.chance(0.12); // batches beyond the group-commit size limits (leader + 128 KiB / 1 MiB)
   for (int t = 0; t < nthreads; t++)
     for (int i = 0; i < per; i++) {
       double x = r.unit() * tot; int k = 0;
       for (; k < O_NKINDS - 1; k++) { if (x < w[k]) break; x -= w[k]; }
       Op o; o.tid = t; o.kind = k;
       auto skey = [&]() { return "c" + std::to_string(r.below(nsingle)); };
-      auto vlen = [&]() -> uint32_t { int c = (int)r.below(100); return c < 5 ? 1 : (bigvals && c > 60) ? (uint32_t)r.range(2000, 9000) : (uint32_t)r.range(10, 400); };
+      auto vlen = [&]() -> uint32_t { int c = (int)r.below(100); if (hugevals && c > 75) return c > 90 ? (uint32_t)r.range(131072, 200000) : (uint32_t)r.range(20000, 40000); return c < 5 ? 1 : (bigvals && c > 60) ? (uint32_t)r.range(2000, 9000) : (uint32_t)r.range(10, 400); };
       switch (k) {
         case O_PUT: o.key = skey(); o.tag = tag++; o.len = vlen(); o.fill = (int)r.below(2); o.sync = r.chance(0.15); break;
         case O_DEL: o.key = skey(); o.sync = r.chance(0.1); break;
